@@ -88,6 +88,14 @@ partial def schema? : SX → Option Schema
   | .list [.atom "ref", n] => n.str?.map .ref
   | .list (.atom "anyOf" :: xs) => (xs.mapM schema?).map .anyOf
   | .list (.atom "oneOf" :: xs) => (xs.mapM schema?).map .oneOf
+  | .list [.atom "allOf", .list refs, .list ps, .list req, .list xreq] =>
+    match refs.mapM SX.str?, ps.mapM (fun (p : SX) => match p with
+        | .list [k, s] => match k.str?, schema? s with
+          | some k, some s => some (k, s)
+          | _, _ => none
+        | _ => none), req.mapM SX.str?, xreq.mapM SX.str? with
+    | some refs, some ps, some req, some xreq => some (.allOf refs ps req xreq)
+    | _, _, _, _ => none
   | _ => none
 
 def defs? : SX → Option Defs
@@ -156,6 +164,11 @@ partial def showTy : Ty → String
     "(model " ++ showExtra extra ++ String.join (fields.map (fun f =>
       " (field " ++ encodeStr f.1 ++ " " ++ (if f.2.1 then "1" else "0") ++ " " ++ showCons f.2.2.1 ++ " " ++
         showTy f.2.2.2 ++ ")")) ++ ")"
+  | .derived bases fields extra =>
+    "(derived (" ++ " ".intercalate (bases.map encodeStr) ++ ") " ++ showExtra extra ++
+      String.join (fields.map (fun f =>
+        " (field " ++ encodeStr f.1 ++ " " ++ (if f.2.1 then "1" else "0") ++ " " ++ showCons f.2.2.1 ++ " " ++
+          showTy f.2.2.2 ++ ")")) ++ ")"
   | .root c t => "(root " ++ showCons c ++ " " ++ showTy t ++ ")"
   | .ref n => "(ref " ++ encodeStr n ++ ")"
   | .opt t => "(opt " ++ showTy t ++ ")"
